@@ -214,7 +214,7 @@ func init() {
 	}
 	p.Strata = append(p.Strata, mon.Stratum{
 		Name: "histories",
-		N:    qt(25000, 500000),
+		N:    qt(25000, 1500000),
 		Run: func(c *mon.Ctx, i int) {
 			s, ok := c15Subj(c, i)
 			if !ok {
@@ -251,7 +251,7 @@ func init() {
 	})
 	p.Strata = append(p.Strata, mon.Stratum{
 		Name: "determinism-in-process",
-		N:    qt(8000, 150000),
+		N:    qt(8000, 450000),
 		Run: func(c *mon.Ctx, i int) {
 			s, ok := c15Subj(c, i*7+(i%2)*6) // half of them merge-text subjects
 			if i%2 == 1 {
@@ -287,7 +287,7 @@ func init() {
 	p.Strata = append(p.Strata, mon.Stratum{
 		Name: "determinism-across-processes",
 		CLI:  true,
-		N:    qt(120, 3000),
+		N:    qt(120, 9000),
 		Run: func(c *mon.Ctx, i int) {
 			s, ok := c15Subj(c, 6+7*i)
 			if !ok {
@@ -320,7 +320,7 @@ func init() {
 	p.Strata = append(p.Strata, mon.Stratum{
 		Name: "race-shared-values",
 		Race: true,
-		N:    qt(1500, 30000),
+		N:    qt(1500, 90000),
 		Run: func(c *mon.Ctx, i int) {
 			s, ok := c15Subj(c, i)
 			if !ok {
